@@ -15,6 +15,9 @@ def obligations(tier):
     obs.append(dict(name="range_step", harness="C46_weakrand.c", entry="harness_range", unwind=1, timeout=300, mem_gb=4,
                     partial_loops="inductive step: one draw from an arbitrary 32-bit state; a rejected draw leaves a 31-bit state that is again covered, so every return (after any number of draws) is in range",
                     desc="all 32-bit states, all top in [1,2^31-1]: accepted first draw => result in [0,top), state = LCG successor; division-by-zero/overflow checks on"))
+    obs.append(dict(name="range_5draws", harness="C46_weakrand.c", entry="harness_range", unwind=5, timeout=600, mem_gb=4,
+                    partial_loops="every return within the first 5 draws is decided; together with range_step (loop continues from a covered state) this rules out an early exit with a rejected value",
+                    defines=["VP_MULTI_DRAW"], desc="all 32-bit states, all top in [1,2^31-1]: whenever the function returns within 5 draws the result is in [0,top)"))
     obs.append(dict(name="weakrand_step", harness="C46_weakrand.c", entry="harness_weakrand", timeout=120, desc="one LCG step for all states"))
     obs.append(dict(name="bounded_top4096", harness="C46_weakrand.c", entry="harness_bounded", defines=["VP_TOPMIN=1", "VP_TOPMAX=4096"], unwind=4,
                     solver="cadical", timeout=900, mem_gb=4, desc="all 32-bit states, top in [1,4096]: rejection loop exits within 3 draws (unwinding assertion)"))
